@@ -358,19 +358,19 @@ def obligations(tier):
             covers += ["backward-jump", "retro-raise"]
         elif kind == "MonoRetro":
             covers += ["backward-jump"]
-        out.append(Ob("step/%s" % kind, h_step, dict(kind=kind), hang_s=240, budget=240, max_fail_keys=2,
+        out.append(Ob("step/%s" % kind, h_step, dict(kind=kind), hang_s=240, budget=240,
                       covers=covers, bounds=dict(bounds, ops=OPS, steps="1 (inductive) from any valid timer state")))
     mids = [[o] for o in NONRESET]
     if not quick:
         mids += [[a, b] for a in NONRESET for b in NONRESET]
     for mid in mids:
-        out.append(Ob("mono/nondecreasing/" + "+".join(mid), h_nondecreasing, dict(mid=mid), hang_s=240, budget=90 if quick else 240, max_fail_keys=1,
+        out.append(Ob("mono/nondecreasing/" + "+".join(mid), h_nondecreasing, dict(mid=mid), hang_s=240, budget=90 if quick else 240,
                       covers=["done", "backward-jump"],
                       bounds=dict(bounds, steps="elapsed, %s, elapsed from any valid timer state" % mid)))
     K = 2 if quick else 3
     for kind in KINDS:
         for op in OPS:
             covers = ["done"]
-            out.append(Ob("seq/%s/%s" % (kind, op), h_seq, dict(kind=kind, first=op, K=K), hang_s=240, max_fail_keys=1, budget=300 if quick else 2400,
+            out.append(Ob("seq/%s/%s" % (kind, op), h_seq, dict(kind=kind, first=op, K=K), hang_s=240, budget=300 if quick else 2400,
                           covers=covers, bounds=dict(bounds, steps="constructor + %d operations" % K)))
     return out
